@@ -540,13 +540,28 @@ class Result:
         self.notes.append(text)
 
     def verify_instance_counts(self):
+        """A rule that matches fewer instances than confirmed by hand no longer sees the code it was written for:
+        analysis error (exit 2) — unless the run already pinpoints a new violation, in which case the shortfall is
+        most likely its consequence (the construct the instances were counted on was rewritten) and the violation is
+        what gets reported; the shortfall is kept as a note."""
+        short = []
         for rid, low in self.min_instances.items():
             n = len(self.instances.get(rid, []))
             if n < low:
-                raise AnalysisError(
-                    "rule %s matched %d instances, fewer than the %d confirmed by hand: the rule no longer sees the code it was written for"
-                    % (rid, n, low)
-                )
+                short.append((rid, n, low))
+        if not short:
+            return
+        known = {k.get("key") for k in load_known().get("known", []) if k.get("property") in (None, self.pid)}
+        new = [f for f in self.findings if f.key not in known]
+        if new:
+            for rid, n, low in short:
+                self.note("rule %s matched %d instances, fewer than the %d confirmed by hand (reported together with %d new finding(s))" % (rid, n, low, len(new)))
+            return
+        rid, n, low = short[0]
+        raise AnalysisError(
+            "rule %s matched %d instances, fewer than the %d confirmed by hand: the rule no longer sees the code it was written for"
+            % (rid, n, low)
+        )
 
 
 def load_known():
